@@ -52,7 +52,9 @@ CONSTANTS
     SelfKinds,     \* subset of {"pk", "po", "none"}
     BaseNaming,    \* "pos": expected parameters are named a, b, .. by position;
                    \* "set": those of the 2nd and 3rd base class range over ActNames
-    RMutant        \* "none" or a seeded model bug (sensitivity self-tests)
+    RMutant,       \* "none" or a seeded model bug (sensitivity self-tests)
+    FixedMemberWithoutSelf   \* TRUE = the tree with /repo commit a15c614 (value.py:1776-1779: a bound method whose
+                   \* receiver cannot be bound is rejected); FALSE = the behaviour before it (sensitivity cfg)
 
 (***************************************************************************)
 (* Vocabulary                                                              *)
@@ -151,15 +153,22 @@ ImplCallable(c) ==
 (***************************************************************************)
 (* Impl, protocol member (type_object.py:173-203): the expected member is  *)
 (* P.f bound to P (value.py:751-756: no signature => {}), the actual one   *)
-(* K.f bound to K (value.py:1769-1781); when K.f cannot be bound           *)
-(* get_signature returns None, the isinstance test :1774 fails and the     *)
-(* value falls through to TypedValue.can_assign, which accepts a method.   *)
+(* K.f bound to K (value.py:1769-1787).  When K.f cannot be bound          *)
+(* get_signature returns None and CallableValue.can_assign returns the     *)
+(* error "is missing a 'self' argument" (:1776-1779, commit a15c614).      *)
+(* Before that commit the isinstance test :1780 failed and the value fell  *)
+(* through to TypedValue.can_assign, which accepts any method object       *)
+(* (finding protocol-member-without-self, fixed); the old behaviour is     *)
+(* kept behind FixedMemberWithoutSelf = FALSE for the sensitivity cfg.     *)
+(* On the Callable route of this module the argument is a plain function   *)
+(* (no BoundMethodSignature), so the new branch cannot be reached there.   *)
 (***************************************************************************)
 ImplProtocol(c) ==
     LET bb == ImplBindSelf(c.bases[1].sig)
         cb == ImplBindSelf(c.child.sig)
     IN IF ~bb.ok THEN [verdict |-> "ok", why |-> "ExpectedUnbound"]
-       ELSE IF ~cb.ok THEN [verdict |-> "ok", why |-> "ActualUnbound"]
+       ELSE IF ~cb.ok THEN (IF FixedMemberWithoutSelf THEN [verdict |-> "err", why |-> "ChildNoSelf"]      \* :1776
+                            ELSE [verdict |-> "ok", why |-> "ActualUnbound"])
        ELSE LET m == ImplCompat(PairFor(c.bases[1], c.child, bb.sig, cb.sig)) IN [verdict |-> m.verdict, why |-> m.why]
 
 ImplRouteStep(c, r) ==
@@ -234,16 +243,12 @@ RefTypesAt(c, i, maxpos, maxkw) == RefTypesOn(c, i, RouteShapes(c, maxpos, maxkw
 (*    the full parameter lists (the receiver counts as a positional: a     *)
 (*    method call always has npos >= 1, and the predicate needs npos >= j  *)
 (*    >= 1, so shapes without receiver never witness it).                  *)
-(*  - protocol-member-without-self: K.f has no parameter that can receive  *)
-(*    the instance, P.f has; the fall-through of CallableValue.can_assign  *)
-(*    accepts K although no call on an instance of K can bind.             *)
+(*  (protocol-member-without-self -- K.f has no parameter that can receive  *)
+(*  the instance, P.f has -- was a second class here; it is repaired in    *)
+(*  /repo a15c614 and now REQUIRED: such an acceptance is a violation.)    *)
 (***************************************************************************)
 Dev_KAPAt(c, i, maxpos, maxkw) ==
     Dev_KeywordAlsoPositional(FullPair(c, i), maxpos + (IF IsMethodRoute(c) THEN 1 ELSE 0), maxkw)
-\* some parameter can take the receiver: the first one is positional or *args (8.7 / 6.3.4)
-CanReceive(sig) == Len(sig) > 0 /\ sig[1].kind \in {"po", "pk", "va"}
-Dev_ProtocolMemberWithoutSelf(c) ==
-    c.route = "protocol" /\ CanReceive(c.bases[1].sig) /\ ~CanReceive(c.child.sig)
 
 \* what the implementation model says about ONE expected signature (used to make the excuse exact: a
 \* deviation class excuses an unsound acceptance only where the model of the deviating code accepts too)
@@ -351,11 +356,13 @@ Ovr_Exhausted ==
     /\ rs.pos > Len(ImplIterOrder(case)) /\ RStep
 Cbl_Ellipsis == stage = "check" /\ case.route = "callable" /\ case.ell /\ RStep
 Cbl_Signature == stage = "check" /\ case.route = "callable" /\ ~case.ell /\ RStep
-Pro_ExpectedUnbound == stage = "check" /\ case.route = "protocol" /\ ImplProtocol(case).why = "ExpectedUnbound" /\ RStep
-Pro_ActualUnbound == stage = "check" /\ case.route = "protocol" /\ ImplProtocol(case).why = "ActualUnbound" /\ RStep
+Pro_ExpectedUnbound == stage = "check" /\ case.route = "protocol" /\ ~ImplBindSelf(case.bases[1].sig).ok /\ RStep
+Pro_ActualUnbound ==
+    /\ stage = "check" /\ case.route = "protocol"
+    /\ ImplBindSelf(case.bases[1].sig).ok /\ ~ImplBindSelf(case.child.sig).ok /\ RStep
 Pro_Signature ==
-    /\ stage = "check" /\ case.route = "protocol" /\ ImplProtocol(case).why \notin {"ExpectedUnbound", "ActualUnbound"}
-    /\ RStep
+    /\ stage = "check" /\ case.route = "protocol"
+    /\ ImplBindSelf(case.bases[1].sig).ok /\ ImplBindSelf(case.child.sig).ok /\ RStep
 
 RNext ==
     \/ ChooseRoute \/ NewBase \/ AddBaseParam \/ EndBase \/ NewChild \/ AddChildParam \/ EndChild
@@ -371,7 +378,6 @@ AcceptedR == stage = "done" /\ rs.report = 0 /\ ~RefExempt(case)
 BehaviourOnOrDev(c, i, sh) ==
     \/ RefBehaviourOn(c, i, sh)
     \/ Dev_KAPAt(c, i, MaxCallPos, MaxCallKw)
-    \/ Dev_ProtocolMemberWithoutSelf(c)
 CaseShapes == RouteShapes(case, MaxCallPos, MaxCallKw)
 RouteSound(r) ==
     (AcceptedR /\ case.route = r) => LET sh == CaseShapes IN \A i \in RefExpected(case) : BehaviourOnOrDev(case, i, sh)
@@ -385,16 +391,13 @@ OverrideSoundStrict == RouteSoundStrict("override")
 ProtocolSoundStrict == RouteSoundStrict("protocol")
 
 RouteTypesSound ==
-    AcceptedR => LET sh == CaseShapes IN \A i \in RefExpected(case) :
-        \/ RefTypesOn(case, i, sh)
-        \/ Dev_ProtocolMemberWithoutSelf(case)        \* (no call binds in K.f: nothing to compare)
+    AcceptedR => LET sh == CaseShapes IN \A i \in RefExpected(case) : RefTypesOn(case, i, sh)
 
-\* the deviation predicates are tight: inside a class an accepted case really is unsound
+\* the deviation predicate is tight: inside the class an accepted case really is unsound
 RouteDevTight ==
     AcceptedR => LET sh == CaseShapes IN \A i \in RefExpected(case) :
-        /\ (Dev_KAPAt(case, i, MaxCallPos, MaxCallKw) /\ ImplAcceptsAt(case, i) /\ ~RefGradual(case))
+        (Dev_KAPAt(case, i, MaxCallPos, MaxCallKw) /\ ImplAcceptsAt(case, i) /\ ~RefGradual(case))
               => ~RefIncludedOn(case, i, sh)
-        /\ Dev_ProtocolMemberWithoutSelf(case) => ~RefIncludedOn(case, i, sh)
 
 \* the staged machine and the fold used by the trace specification are the same function
 RouteMachineIsFold == stage = "done" => rs = ImplRoute(case)
